@@ -1185,9 +1185,9 @@ theorem fold_flatten (c : Core) (hc : c.kind = .flatten) :
     subst hzs; subst h
     have ih' := ih ls.flatten (by simp [flattenE, hls, bind, Except.bind, pure, Except.pure])
     cases hx : x.asIter with
-    | none => simp [hx] at hl
+    | none => simp [iterE, hx] at hl
     | some l' =>
-      simp only [hx, Except.ok.injEq] at hl
+      simp only [iterE, hx, Except.ok.injEq] at hl
       subst hl
       simp [foldCore, Core.push, hc, hx, ih', Tr.prepend]
 
